@@ -742,6 +742,17 @@ func (multi *MultiEpoch) processSlotTransactions(
 	gsfaReader *gsfa.GsfaReaderMultiepoch,
 	gsfaReadersLoaded bool,
 ) error {
+	if filter != nil {
+		// the account lists come from the client: reject malformed keys here, so that the
+		// Must* conversions below (some of them in spawned goroutines) cannot panic
+		for _, accounts := range [][]string{filter.AccountInclude, filter.AccountExclude, filter.AccountRequired} {
+			for _, acc := range accounts {
+				if _, err := solana.PublicKeyFromBase58(acc); err != nil {
+					return status.Errorf(codes.InvalidArgument, "invalid account %q: %v", acc, err)
+				}
+			}
+		}
+	}
 
 	filterOutTxn := func(tx solana.Transaction, meta any) bool {
 		if filter == nil {
